@@ -18,8 +18,10 @@ pub fn check_incoming_htlc_cltv(
 
 /// Crate-private timing constants (the library's stated bounds), for the harness oracles.
 pub mod consts {
-	pub use crate::chain::channelmonitor::{
-		CLTV_CLAIM_BUFFER, LATENCY_GRACE_PERIOD_BLOCKS, MAX_BLOCKS_FOR_CONF,
-	};
-	pub use crate::ln::channelmanager::CLTV_FAR_FAR_AWAY;
+	#![allow(missing_docs)]
+	pub const CLTV_CLAIM_BUFFER: u32 = crate::chain::channelmonitor::CLTV_CLAIM_BUFFER;
+	pub const LATENCY_GRACE_PERIOD_BLOCKS: u32 =
+		crate::chain::channelmonitor::LATENCY_GRACE_PERIOD_BLOCKS;
+	pub const MAX_BLOCKS_FOR_CONF: u32 = crate::chain::channelmonitor::MAX_BLOCKS_FOR_CONF;
+	pub const CLTV_FAR_FAR_AWAY: u32 = crate::ln::channelmanager::CLTV_FAR_FAR_AWAY;
 }
